@@ -15,7 +15,9 @@ VARIANTS = ["4d:America/Chicago:0:23:base", "10d:Europe/London:7:15:rep", "40d:A
             # can bridge, so that the later fill stages are reached; judged through the counters over the rest of the frame
             "40d:America/Chicago:0:23:outT6", "60d:Europe/London:0:23:outO16", "400d:America/Chicago:0:23:outT21", "30d:Asia/Kolkata:0:23:outG5",
             # the same instants prepared just before as a meter of a twin zone (same offset as the zone's standard time, no clock changes)
-            "10d@2020-03-24:Europe/London:0:23:rep+twin", "10d@2020-10-28:America/Chicago:0:23:base+twin"]
+            "10d@2020-03-24:Europe/London:0:23:rep+twin", "10d@2020-10-28:America/Chicago:0:23:base+twin",
+            # re-reads appended at the end of the frame: the rows are not in time order, a duplicated timestamp still keeps its FIRST row
+            "40d:America/Chicago:0:23:rep+late", "10d:Europe/London:7:15:base+late"]
 _st = {}
 
 
@@ -47,6 +49,9 @@ def realise(cin, variant):
     em = _st["em"]
     d, tz, h0, h1, mode = variant.split(":")
     mode, _, twin = mode.partition("+")       # "+twin": the same instants are first prepared as a meter of a zone without clock changes, in this process
+    late = twin == "late"                     # "+late": re-reads arrive late - second rows of duplicated timestamps are appended at the END of the frame (rows not in time order)
+    if late:
+        twin = ""
     d, _, start_date = d.partition("@")
     days, h0, h1 = int(d[:-1]), int(h0), int(h1)
     fr = _frame(days, tz, h0, h1, cin["ghi"], days, start_date or None)
@@ -98,9 +103,20 @@ def realise(cin, variant):
         supplied.loc[supplied["observed"] == 0, "observed"] = np.nan
     supplied = supplied.drop(index=drop)
     given = fr.drop(index=drop)
-    for ts, second in dups:           # the duplicate comes after the first occurrence
-        loc = given.index.get_loc(ts)
-        given = pd.concat([given.iloc[: loc + 1], second, given.iloc[loc + 1:]])
+    if late:
+        # forty more re-reads of hours elsewhere in the frame, all with other values; every one arrives after the whole first pass
+        rng2 = np.random.default_rng(17 + n)
+        cand = [t for t in given.index[30:-30:7] if t not in set(d[0] for d in dups)][:40]
+        extra = []
+        for j, ts in enumerate(cand):
+            row = given.loc[[ts]].copy()
+            row.iloc[0] = [5000.0 + j + c for c in range(len(given.columns))]
+            extra.append(row)
+        given = pd.concat([given] + [second for _, second in dups] + extra)
+    else:
+        for ts, second in dups:           # the duplicate comes after the first occurrence
+            loc = given.index.get_loc(ts)
+            given = pd.concat([given.iloc[: loc + 1], second, given.iloc[loc + 1:]])
     keep = given.copy(deep=True)
     out = {"res": "ok", "index_ok": True, "cells": [], "pad": {"badValue": 0, "badFlag": 0, "missing": 0}}
     try:
